@@ -177,6 +177,7 @@ CLAIMS = {
              "layout, NUL index, returned length and absence of stray writes (P2), negation in the same-width "
              "unsigned type and dispatcher selection by sign and sizeof (P3). 542 obligations, all discharged; "
              "covers all 2^64 64-bit values, which no enumeration reaches.",
+        text_extra=" The inverse conversion stringTo<T>() is decided by a table rule: every integral specialisation parses with a std::sto* function whose result range covers T.",
         note="trusted base: clang front end, the extractor and the symbolic interpreter cv/digits.py; -INT_MIN "
              "wrap-around as produced by the repository's compilers; the text-to-value direction (std::strto*) "
              "is not decided",
@@ -331,7 +332,7 @@ def main():
             "evidence_file": "evidence/%s.json" % pid,
             "replay_cmd_template": "bin/check %s --replay {path}" % pid,
             "engine": c["engine"],
-            "level_claimed": {"category": c["level"], "text": c["text"],
+            "level_claimed": {"category": c["level"], "text": c["text"] + c.get("text_extra", ""),
                               "design_ref": "DESIGN.md §4 " + pid},
             "level_note": c["note"],
             "technique": c["technique"],
